@@ -103,12 +103,21 @@ func svJoinDir(d, va string) string {
 	return d + va
 }
 
+// curDirOf: the current directory a view keeps (the field itself: Getwd also needs search permission on the directory)
+func curDirOf(v avfs.VFS) string {
+	if c, ok := v.(interface{ CurDir() string }); ok {
+		return c.CurDir()
+	}
+	wd, _ := v.Getwd()
+	return wd
+}
+
 // viewAbs: the absolute path, in the view's own namespace, that the view resolves p to (vfs.Abs)
 func viewAbs(v avfs.VFS, p string) string {
 	if path.IsAbs(p) {
 		return path.Clean(p)
 	}
-	wd, _ := v.Getwd()
+	wd := curDirOf(v)
 	return path.Join(wd, p)
 }
 
@@ -217,7 +226,7 @@ func (w *svWorld) showViews() string {
 	for _, id := range w.order {
 		v := w.views[id].vfs
 		u := v.User()
-		wd, _ := v.Getwd()
+		wd := curDirOf(v)
 		ad := 0
 		if u.IsAdmin() {
 			ad = 1
@@ -234,7 +243,7 @@ func (w *svWorld) states() map[int]svState {
 	for _, id := range w.order {
 		v := w.views[id].vfs
 		u := v.User()
-		wd, _ := v.Getwd()
+		wd := curDirOf(v)
 		m[id] = svState{fmt.Sprintf("%d:%d:%v", u.Uid(), u.Gid(), u.IsAdmin()), fmt.Sprint(uint32(v.UMask())), wd}
 	}
 	return m
@@ -652,7 +661,7 @@ func (g *svGen) vpath(v *svView) string {
 			return "/" + r.pick(fsNames) + "/.." + p
 		}
 	default: // relative to the view's current directory
-		wd, _ := v.vfs.Getwd()
+		wd := curDirOf(v.vfs)
 		g.o.count("path:relative")
 		g.w.st.relOps++
 		switch {
